@@ -89,3 +89,21 @@ def opConsumes : Nat → Bool × Bool
   | _ => (false, false)
 
 end Gofasta.Base
+
+namespace Gofasta.Base
+
+/-- the upper-case IUPAC letter that denotes a base set (inverse of `letterSet`) -/
+def symOfSet : Nat → Nat
+  | 1 => 65 | 2 => 67 | 4 => 71 | 8 => 84
+  | 5 => 82 | 10 => 89 | 6 => 83 | 9 => 87 | 12 => 75 | 3 => 77
+  | 14 => 66 | 13 => 68 | 11 => 72 | 7 => 86 | 15 => 78
+  | _ => 0
+
+/-- complement of one text symbol, from base sets: case kept, '-' and '?' fixed -/
+def specCompSym (b : Nat) : Nat :=
+  if b = 45 ∨ b = 63 then b
+  else match letterSet (upper b) with
+    | some m => let u := symOfSet (compSet m); if 97 ≤ b ∧ b ≤ 122 then u + 32 else u
+    | none => 0
+
+end Gofasta.Base
